@@ -1283,6 +1283,17 @@ func (env *Env) typeAssert(x *ast.TypeAssertExpr, commaOk bool) Val {
 		env.fail(x.Pos(), "type assertion target unknown")
 	}
 	ts := env.ss().SortOf(to)
+	// err.(syscall.Errno): the errno box of the error datatype
+	if nt, ok := to.(*types.Named); ok && t.Sort == "I.error" && nt.Obj().Pkg() != nil && nt.Obj().Pkg().Path() == "syscall" && nt.Obj().Name() == "Errno" {
+		is := app("(_ is I.error.errno)", t.S)
+		val := Term{app("I.error.errno.code", t.S), ts}
+		if !commaOk {
+			env.safe("safe:type-assert", x.Pos(), is, "dynamic type is syscall.Errno")
+			return Val{T: val, GoT: to}
+		}
+		z := env.c.zero(ts, to)
+		return Val{Tuple: []Val{{T: Term{ite(is, val.S, z.S), ts}, GoT: to}, {T: Term{is, SBool}}}}
+	}
 	for _, b := range si.Boxes {
 		if b.Sort == ts {
 			is := app("(_ is "+b.Ctor+")", t.S)
